@@ -12,7 +12,9 @@ PY = '/venv/bin/python'
 
 
 def claimed():
-    return [c['property_id'] for c in json.load(open('/verif/MANIFEST.json'))['checks']]
+    ps = [c["property_id"] for c in json.load(open("/verif/MANIFEST.json"))["checks"]]
+    only = os.environ.get("TWIN_PROPS")
+    return [p for p in ps if not only or p in only.split(",")]
 
 
 def one(base, rel, props):
@@ -48,6 +50,8 @@ def main():
         for n in sorted(os.listdir(base)):
             if os.path.exists(os.path.join(base, n, 'patch.diff')):
                 rels.append(n)
+                continue
+            if not os.path.isdir(os.path.join(base, n)):
                 continue
             for k in sorted(os.listdir(os.path.join(base, n))):
                 if os.path.exists(os.path.join(base, n, k, 'patch.diff')):
